@@ -35,10 +35,12 @@ SETS = {
         "items": [("enum", "BinaryData")],
         "impl": ("BinaryData", ["new", "zeroed", "len", "is_empty", "concat", "slice", "tiled", "find_byte"]),
         "harness_file": "find_byte.harness.rs",
-        "harnesses": ["owned", "zeroed", "slice_of_owned", "concat_owned_owned", "concat_slice_zeroed", "tiled_owned"],
+        # concat_slice_zeroed, slice_of_tiled and tiled_concat (three-level ropes) exhaust CBMC's memory or run past
+        # four minutes here; they stay in the harness file but are not run
+        "harnesses": ["owned", "zeroed", "slice_of_owned", "concat_owned_owned", "tiled_owned"],
         "edition": "2024",
         "bounded": True,
-        "bound": "ropes of at most 2 levels over leaves of at most 3 symbolic bytes, all five node kinds, every byte and every offset <= len + 1",
+        "bound": "ropes of one inner node (Slice, Concat, Tiled; count <= 3) over Owned leaves of at most 3 symbolic bytes, plus Owned and Zeroed alone; every byte value and every offset <= len + 1",
         "quick": False,
     },
 }
@@ -127,6 +129,10 @@ def run_harness(d, main, name, h, timeout_s):
     if "VERIFICATION:- SUCCESSFUL" in out:
         mm = re.search(r"\*\* (\d+) of (\d+) failed", out)
         res.update(status="ok", checks=int(mm.group(2)) if mm else None)
+    elif "VERIFICATION:- FAILED" in out and ("out of memory" in out or "CBMC failed" in out or not re.search(r"Failed Checks: ", out)):
+        # CBMC gave up (memory, internal failure): that decides nothing
+        res.update(status="undecided", message="CBMC did not finish (out of memory / internal failure)")
+        return res
     elif "VERIFICATION:- FAILED" in out:
         fails = re.findall(r"Failed Checks: (.*)", out)
         res.update(status="fail", message="; ".join(fails[:4])[:400], expr=fails[0][:200] if fails else "")
